@@ -49,6 +49,7 @@ def verifySig (key : KeyId) (bytes : Bytes) (σ : Sig) : Bool :=
 inductive SigData where
   | empty                 -- len(SignatureData) == 0
   | garbage               -- does not unmarshal into signing.SignatureDescriptor_Data
+  | nosum                 -- unmarshals with no `sum` set: the SDK's SignatureDataFromProto panics
   | sig (σ : Sig)
 deriving DecidableEq, Repr
 
@@ -76,6 +77,7 @@ inductive Err where
   | clientNotActive               -- clienttypes.ErrClientNotActive
   | invalidMisbehaviour           -- clienttypes.ErrInvalidMisbehaviour (ValidateBasic)
   | invalidSignatureAndData       -- solomachine.ErrInvalidSignatureAndData (ValidateBasic)
+  | panic                         -- not an error value: SignatureDataFromProto panicked
 deriving DecidableEq, Repr
 
 structure State where
@@ -95,6 +97,7 @@ def produceVerificationArgs (s : State) (proof : ProofArg) : Except Err (Sig × 
     match sd with
     | .empty => .error .invalidProof
     | .garbage => .error .unmarshal
+    | .nosum => .error .panic
     | .sig σ => if s.ts > ts then .error .invalidProof else .ok (σ, ts)
 
 /-- `verifyMembership` / `verifyNonMembership` (`data = []` for the latter): new state on success -/
@@ -127,6 +130,7 @@ def verifyHeader (s : State) (h : Header) : Except Err Unit :=
     let signBz := encSignBytes ⟨s.seq, h.ts, s.div, sentinelHeaderPath, h.hdata⟩
     match h.sig with
     | .garbage => .error .unmarshal
+    | .nosum => .error .panic
     | .empty => .error .soloInvalidHeader      -- SignatureDataFromProto(nil sum) → nil → not SingleSignatureData
     | .sig σ => if !verifySig s.key signBz σ then .error .soloInvalidHeader else .ok ()
 
@@ -151,6 +155,7 @@ def verifySigAndData (pathDecodes : Bytes → Bool) (s : State) (mseq : Nat) (sd
     let signBz := encSignBytes ⟨mseq, sd.ts, s.div, sd.path, sd.data⟩
     match sd.sig with
     | .garbage => .error .unmarshal
+    | .nosum => .error .panic
     | .empty => .error .sigVerificationFailed
     | .sig σ => if !verifySig s.key signBz σ then .error .sigVerificationFailed else .ok ()
 
